@@ -209,6 +209,8 @@ def jobs(prop, tier, only_fn=None):
     if prop == "C09":
         plan = [(f, e) for f in N_FMTS for e in (ENTRIES + STREAM_ENTRIES)[:(3 if quick else 8)]]
         plan += [(f, ENTRIES[0]) for f in (CORE[:12] if quick else CORE)]
+        if quick:  # the stream entries run the same engine: a few %n spellings each
+            plan += [(f, e) for f in ("%n", "%ln", "%%%n", "%5n", "%-n", "%d%n") for e in STREAM_ENTRIES]
         dmaxes = [24]
     elif prop == "C11":
         plan = [(f, ENTRIES[i % 2 if quick else i % 4]) for i, f in enumerate(fmts)]
